@@ -106,7 +106,7 @@ def random_rhythm(rng, L, values):
 
 def make_entry(rng, v, channel, rest_p, bpm_p=0.0, lo=20, hi=90):
     if rng.random() < rest_p:
-        return {"v": [v.base, v.dots, v.r1, v.r2], "notes": None}
+        return {"v": [v.base, v.dots, v.r1, v.r2], "notes": None if rng.random() < 0.75 else []}
     notes = MM.random_notes(rng, size=rng.choice([1, 1, 2, 3]), lo=lo, hi=hi, channel=channel)
     e = {"v": [v.base, v.dots, v.r1, v.r2], "notes": notes}
     if rng.random() < bpm_p:
